@@ -942,6 +942,10 @@ func e2eCheck(rc *RunCtx, env *e2eEnv, plans []*callPlan, cli, prov, srv, added 
 		// ---- C03: handler ran once with equal arguments, caller saw the outcome
 		if p.handlerRuns != 1 {
 			rc.Violate("C03", "handler-invocation-count", key, fmt.Sprintf("%s: handler ran %d times (caller got ret=%v err=%v)", where, p.handlerRuns, fmtArgs([]any{p.gotRet}), p.gotErr))
+			if p.handlerRuns == 0 && len(p.mw) == 0 && len(cli)+len(provOf(p)) > 0 {
+				// the call came back without having entered a single one of the client's middleware
+				rc.Violate("C16", "client-middleware-trace", key, fmt.Sprintf("%s: the call returned (err=%v) without passing through any of its %d client-side middleware", where, p.gotErr, len(cli)+len(provOf(p))))
+			}
 			continue
 		}
 		if p.connLost {
